@@ -562,6 +562,20 @@ class SqlImpl(TableImpl):
             query.order_by = []
             right_query.order_by = []
 
+            # Columns of different types get the common type on both sides (SQLite would keep the storage class of each
+            # row: an Int column unioned with a Float column held integers and reals).
+            from pydiverse.transform._internal.pipe.cache import Cache
+
+            left_cols, right_cols = Cache.from_ast(nd.child).cols, Cache.from_ast(nd.right).cols
+            for luid, ruid in zip(left_select, right_query.select, strict=True):
+                ltype, rtype = (types.without_const(c.dtype()) for c in (left_cols[luid], right_cols[ruid]))
+                if ltype != rtype:
+                    common = types.lca_type([ltype, rtype])
+                    target = cls.sqa_type(Int64() if type(common) is Int else Float64() if type(common) is Float else common)
+                    for exprs, uid in ((sqa_expr, luid), (right_sqa_expr, ruid)):
+                        lbl = exprs[uid]
+                        exprs[uid] = sqa.label(lbl.name, sqa.cast(lbl.element if isinstance(lbl, sqa.Label) else lbl, target))
+
             # Build left and right select statements
             left_sel = cls.compile_query(table, query, sqa_expr)
             right_sel = cls.compile_query(right_table, right_query, right_sqa_expr)
